@@ -11,7 +11,7 @@ from . import sqlproxy as SP
 OPS_ALL = ["mk", "mk", "mk_child", "mk_child", "add", "set", "set", "set_parent", "bs_append", "bs_remove", "bs_replace", "tag_add", "tag_remove",
            "node_parent", "follow", "unfollow", "set_p", "k_rename", "h_doc", "delete", "expunge", "flush", "flush", "commit", "rollback",
            "begin_nested", "sp_commit", "sp_rollback", "close", "requery", "get", "lazy", "expire", "expire_all", "refresh",
-           "mut_data", "mut_items", "ext_update", "merge", "drop", "gc", "pickle_rt", "populate_existing", "q_ops", "g_ops", "expire_attr", "read", "m_ops", "m_reload", "reset", "set_k", "bulk", "row_replace", "label"]
+           "mut_data", "mut_items", "ext_update", "merge", "drop", "gc", "pickle_rt", "populate_existing", "q_ops", "g_ops", "expire_attr", "read", "m_ops", "m_reload", "reset", "set_k", "bulk", "row_replace", "label", "make_transient"]
 
 
 _ENGINES = {}
@@ -132,7 +132,8 @@ class Run:
                     self.lpoint(name)
                 return fn
             ev.listen(self.session, name, mk(name))
-        for name in ("before_flush", "after_flush", "after_flush_postexec", "after_rollback", "after_soft_rollback", "before_commit"):
+        for name in ("before_flush", "after_flush", "after_flush_postexec", "after_rollback", "after_soft_rollback", "before_commit",
+                     "after_begin"):
             ev.listen(self.session, name, (lambda n: lambda *a: self.lpoint(n))(name))
         self.sp_stack = []
 
@@ -433,12 +434,25 @@ class Run:
         if c32:
             self.c32_before_rollback(kind)
         try:
-            self.session.rollback()
-        except (self.m["exc"].DBAPIError, InjectedListenerError):
-            # a fault injected into the rollback itself (rollback_error / after_rollback hook): the state was restored before the error
-            # was reported (documented); a second call is a no-op
-            self.bump("probe:rollback_raised")
-            self.session.rollback()
+            try:
+                self.session.rollback()
+            except (self.m["exc"].DBAPIError, InjectedListenerError):
+                # a fault injected into the rollback itself (rollback_error / after_rollback hook): the state was restored before the
+                # error was reported (documented); a second call is a no-op
+                self.bump("probe:rollback_raised")
+                self.session.rollback()
+        except Exception as ex:
+            # the documented recovery itself is refused: the session cannot be used any more
+            self.V("C32" if c32 else "*", "session_not_recoverable", "Session.rollback() after the failed operation raised %s: %s"
+                   % (type(ex).__name__, str(ex).split("\n")[0][:110]))
+            try:
+                self.session.close()
+            except Exception:
+                pass
+            for e in self.objs:
+                e["retired"] = True
+            self.new_session()
+            return
         self.after_rollback()
         if c32 and not self.c32_bad():
             self.c32_after_rollback(kind)
@@ -476,6 +490,8 @@ class Run:
             for o in self.session.execute(sel(C).order_by(pkcol)).scalars().all():
                 self.track(o)
         self.session.commit()          # ends the read transaction (the observer may write now); expires per expire_on_commit
+        if self.case.get("c32"):
+            self.engine.dispose()      # the first database access of the transaction has to open a connection (a fault position)
         self.txn_flushed = False
         self.sp_stack = []
         tabs = self.probe(committed=True)
@@ -678,9 +694,15 @@ class Run:
             counts[pred] = counts.get(pred, 0) + 1
             if j >= self.txn_start["call0"]:
                 pts.append([pred, counts[pred]])
+        nconn = 0
+        for j, (kind, head, cid, n) in enumerate(self.plan.calls):
+            if kind == "connect":
+                nconn += 1
+                if j >= self.txn_start["call0"]:
+                    pts.append(["connect", nconn])
         # hooks that run inside flush (the rest fire in commit / rollback / close, outside what C32 is about)
         flush_hooks = ("before_flush", "after_flush", "after_flush_postexec", "before_insert", "after_insert", "before_update", "after_update",
-                       "before_delete", "after_delete", "pending_to_persistent", "persistent_to_deleted")
+                       "before_delete", "after_delete", "pending_to_persistent", "persistent_to_deleted", "after_begin")
         lpts = [[name, n] for name, n in self.lcalls[self.txn_start["lcall0"]:] if name in flush_hooks]
         created = []
         for t in self.trace:
@@ -1441,6 +1463,29 @@ class Run:
         if idx:
             self.op_delete(idx[0], 1)
 
+    def op_make_transient(self, a1, a2):
+        """make_transient() of a detached object whose row is gone (it was deleted and the deletion committed, or it was expunged from
+        the 'deleted' state), so that the application can add it again"""
+        insp = self.m["inspect"]
+        e = self.pick(a1, lambda e: OS.state_of(e["obj"]) == "detached" and insp(e["obj"]).was_deleted and not e.get("replaced")
+                      and e["cls"] in ("K", "T", "Node", "M", "P", "Q", "G") and OS.pk_of(e["obj"]) is not None)
+        if e is None or self.session.new or self.session.dirty or self.session.deleted:
+            return "skip"
+        pk = OS.pk_of(e["obj"])
+        if pk in self.probe()[self.tab_of(e["cls"])] or self.txn_flushed:
+            return "skip"
+        o = e["obj"]
+        for an in OS.rel_attrs(self.U, o):
+            if OS.loaded(o, an)[0] and OS.members(OS.loaded(o, an)[1]):
+                return "skip"
+        self.m["make_transient"](o)
+        if OS.state_of(o) != "transient":
+            self.V("C35", "make_transient_state", "make_transient() left the object %s" % OS.state_of(o))
+        e["retired"] = False
+        e["expunged"] = False
+        self.bump("probe:made_transient")
+        return e["label"]
+
     def op_expunge(self, a1, a2):
         if self.session.dirty or self.session.new or self.session.deleted:
             return "skip"
@@ -1660,6 +1705,10 @@ class Run:
         if self.session.new or self.session.dirty or self.session.deleted:
             self.txn_flushed = True         # begin_nested() flushes
         self.session.begin_nested()
+        if self.session.new or self.session.dirty or self.session.deleted:
+            # documented: begin_nested() flushes all pending state first, whatever the autoflush setting, so that the SAVEPOINT captures it
+            self.V("C33", "begin_nested_did_not_flush", "after begin_nested() the session still lists new=%d dirty=%d deleted=%d (autoflush=%s)"
+                   % (len(self.session.new), len(self.session.dirty), len(self.session.deleted), self.cfg.get("autoflush", True)))
         snap = {"states": {e["label"]: (OS.state_of(e["obj"]), self.in_session(e["obj"])) for e in self.entries()},
                 "tables": self.probe(), "trans": self.session.get_nested_transaction()}
         self.sp_stack.append(snap)
@@ -1863,6 +1912,22 @@ class Run:
             return "skip"
         o = e["obj"]
         insp = self.m["inspect"](o)
+        rel = {"A": "k", "A2": "k", "D": "blob"}.get(e["cls"])
+        if a2 % 5 == 0 and rel and OS.loaded(o, rel)[0] and OS.loaded(o, rel)[1] is not None and not insp.attrs[rel].history.has_changes() \
+                and self.member_ok(OS.loaded(o, rel)[1]):
+            # a many-to-one without reverse side is removed with 'del' and the attribute is then expired: the removal is discarded
+            # (documented for expire: pending changes of the expired attributes are lost), the attribute reads what the row says
+            was = OS.loaded(o, rel)[1]
+            delattr(o, rel)
+            self.session.expire(o, [rel])
+            h = insp.attrs[rel].history
+            if h.has_changes():
+                self.V("C36", "history_survived_expire", "%s.%s was deleted and then expired; its history still reports added=%s deleted=%s"
+                       % (e["cls"], rel, [OS.pk_of(x) for x in h.added or ()], [OS.pk_of(x) for x in h.deleted or () if x is not None]))
+            if getattr(o, rel) is not was:
+                self.V("C46", "expired_relationship_read_stale", "%s.%s was expired and does not read the object its row refers to" % (e["cls"], rel))
+            self.bump("probe:relationship_deleted_then_expired")
+            return "%d.%s del+expire" % (e["label"], rel)
         names = [an for an in self.U["scal"][e["cls"]] if not insp.attrs[an].history.has_changes()]
         if not names:
             return "skip"
@@ -3077,6 +3142,8 @@ class Run:
                     ok = False
             if b == "unloaded" and not evs:
                 ok = True       # adopted without having been observed before
+            if kind == "make_transient" and b == "detached" and after == "transient" and not evs:
+                ok = True       # make_transient() of a detached object happens outside any session: no session event exists for it
             if not ok:
                 self.V("C35", "events_do_not_match_transition", "%s went %s -> %s during %s but the lifecycle events were %s"
                        % (e["cls"], b, after, kind, evs), op=i)
